@@ -20,7 +20,7 @@ DataOf(n) == [i \in 1..n |-> ((17 * i + 3) % 251) + 1]      \* distinct non-zero
 CellChoices(n) ==
   { [k |-> "none"] }
   \cup { [k |-> "ptr", t |-> t] : t \in ({0, 4, n} \cap (0..n)) }
-  \cup { [k |-> "str", s |-> s] : s \in {StrA, StrK, StrH} }
+  \cup { [k |-> "str", s |-> s] : s \in {StrA, StrK, StrH, <<>>} }       \* (the empty string: its only byte is its terminator)
   \cup { [k |-> "cstr", s |-> s] : s \in {StrA, StrBC} }
 
 \* label configurations: sequences of <<address kind, names>>; address kinds: "zero", "odd" (unaligned), "end"
